@@ -91,7 +91,7 @@ cleanup_pred = dict(
                 contract=r'''
 __CPROVER_requires(__CPROVER_is_fresh(thread_context, sizeof(TCx)) && __CPROVER_is_fresh(thread_context->_transit_event_buffer, sizeof(TEBs)) && thread_context->_queue_type <= QT_BoundedDropping)
 __CPROVER_assigns()
-__CPROVER_ensures(RET ==> (!thread_context->_valid && thread_context->g_queue_empty && thread_context->_transit_event_buffer->g_size == 0)) /*@ C03 "a thread's context is reclaimed only after the thread exited and everything it logged was read and processed (nothing pending is discarded)" */
+__CPROVER_ensures(RET ==> (!thread_context->_valid && thread_context->g_queue_empty && thread_context->_transit_event_buffer->g_size == 0)) /*@ C03,C20 "a thread's context is reclaimed only after the thread exited and everything it logged was read and processed (nothing pending is discarded)" */
 __CPROVER_ensures((!thread_context->_valid && thread_context->g_queue_empty && thread_context->_transit_event_buffer->g_size == 0) ==> RET) /*@ C20 "a drained context of an exited thread is recognised as reclaimable (all four queue types)" */
 ''')],
     harness='  TCx* t; BW_cleanup_pred(t);', dropped=['asserts (NDEBUG)'], trusted=['queue.empty() under sequentially consistent semantics (the relaxed valid flag: DESIGN §2.3)'], min_obligations=5)
@@ -136,3 +136,56 @@ __CPROVER_ensures(!IS_BOUNDED(T_(self)) ==> T_(self)->_failure_counter == OLD(T_
     trusted=['context cache abstracted to {tracked, representative}; the tracked context is taken as the last one visited so that the last report is its report', 'get_and_reset_failure_counter by its contract (unit TC.get_and_reset_failure_counter)'], min_obligations=20)
 
 UNITS = [has_pending, batch_unit('_poll'), batch_unit('_exit'), cleanup_pred, failure_counter]
+
+# ------------------------------------------------------------------------------------------ _populate_transit_events_from_frontend_queues
+PA_PRELUDE = HP_PRELUDE + r'''
+/* std::chrono unit semantics are part of the lowering rules below:
+     get_timestamp<system_clock>() / get_timestamp_ns<system_clock>()  -> NOW_NS()              (nanoseconds)
+     <microseconds member> used in arithmetic with nanoseconds          -> GRACE_AS_NS(self)     (chrono converts to the common type)
+     <microseconds member>.count()                                      -> GRACE_US_COUNT(self)  (the raw microsecond count) */
+typedef struct OptionsPA { int64_t grace_us; } OptionsPA;
+OptionsPA g_options; int64_t g_now_ns; size_t g_now_reads, g_reads_tracked; uint64_t g_ts_now_tracked; size_t g_clock, g_t_now, g_t_first_read; size_t g_ret_tracked;
+static inline int64_t NOW_NS(void) { g_now_reads++; g_clock++; g_t_now = g_clock; return g_now_ns; }
+#define GRACE_US_COUNT(self) (g_options.grace_us)
+#define GRACE_AS_NS(self) (g_options.grace_us * 1000)
+size_t READ_AND_DECODE(BW* self, TCx* tc, uint64_t ts_now)
+__CPROVER_assigns(g_reads_tracked, g_ts_now_tracked, g_clock, g_t_first_read, g_ret_tracked)
+__CPROVER_ensures(RET <= (((size_t)1) << 40) && g_clock == OLD(g_clock) + 1 && (OLD(g_t_first_read) == 0 ? g_t_first_read == g_clock : g_t_first_read == OLD(g_t_first_read)))
+__CPROVER_ensures(tc == T_(self) ? (g_reads_tracked == OLD(g_reads_tracked) + 1 && g_ts_now_tracked == ts_now && g_ret_tracked == RET) : (g_reads_tracked == OLD(g_reads_tracked) && g_ts_now_tracked == OLD(g_ts_now_tracked) && g_ret_tracked == OLD(g_ret_tracked)));
+#define BW__read_and_decode_frontend_queue(self, q, tc, ts) READ_AND_DECODE(self, tc, ts)
+'''
+populate_all = dict(
+    name='BW.populate_all', primary='C05', props={'C05', 'C03'}, kind='S',
+    desc='BackendWorker::_populate_transit_events_from_frontend_queues: the pass limit is "now minus the grace period" in the same unit (nanoseconds), read once before the first queue is read, and every active thread\'s queue is read once with that same limit',
+    structs=[], prelude=PA_PRELUDE, enforce='BW_populate_all', replace=['READ_AND_DECODE'], loopcontracts=True,
+    funcs=[dict(src=dict(header=H, cls='BackendWorker', name='_populate_transit_events_from_frontend_queues'), src_params=[],
+                cfun='BW_populate_all', sig='size_t BW_populate_all(BW* self)', cls_c='BW', member_fields=['_active_thread_contexts_cache'],
+                siblings=['_read_and_decode_frontend_queue'], methods=TC_METHODS,
+                range_for=[(r'_active_thread_contexts_cache', 'CVec_size', 'CVec_get', 'TCx*')],
+                pre_rules=[(r'detail::get_timestamp(_ns)?<std::chrono::system_clock>\(\)', 'NOW_NS()'),
+                           (r'_options\.log_timestamp_ordering_grace_period\.count\(\)', 'GRACE_US_COUNT(self)', '?'),
+                           (r'_options\.log_timestamp_ordering_grace_period\b(?!\.)', 'GRACE_AS_NS(self)', '?'),
+                           (r'\(NOW_NS\(\) - GRACE_AS_NS\(self\)\)\s*\.count\(\)', '(NOW_NS() - GRACE_AS_NS(self))', '?'),
+                           (r'thread_context->get_spsc_queue_union\(\)\s*\.\s*(un)?bounded_spsc_queue', '0')],
+                loops={0: r'''
+__CPROVER_assigns(__i0, cached_transit_events_count, g_reads_tracked, g_ts_now_tracked, g_clock, g_t_first_read, g_ret_tracked)
+__CPROVER_loop_invariant(__i0 <= self->_active_thread_contexts_cache.n && cached_transit_events_count <= __i0 * (((size_t)1) << 40) && __i0 <= (((size_t)1) << 20))
+__CPROVER_loop_invariant(g_reads_tracked == (__i0 > self->_active_thread_contexts_cache.g_p ? 1 : 0))
+__CPROVER_loop_invariant(__i0 > self->_active_thread_contexts_cache.g_p ==> g_ts_now_tracked == ts_now)
+__CPROVER_loop_invariant((g_t_first_read == 0 || g_t_first_read > g_t_now) && g_t_now <= g_clock && g_clock <= __i0 + 1 && g_t_first_read <= g_clock && (__i0 > 0 ==> g_t_first_read != 0))
+__CPROVER_decreases(self->_active_thread_contexts_cache.n - __i0)
+'''},
+                contract=r'''
+__CPROVER_requires(''' + FRESH2 + r''' && self->_active_thread_contexts_cache.n <= (((size_t)1) << 20))
+__CPROVER_requires(g_now_reads == 0 && g_reads_tracked == 0 && g_clock == 0 && g_t_first_read == 0 && g_t_now == 0 && g_now_ns >= 0 && g_now_ns < (1LL << 62) && g_options.grace_us >= 0 && g_options.grace_us <= (1LL << 40) && g_options.grace_us * 1000 <= g_now_ns)
+__CPROVER_assigns(g_now_reads, g_reads_tracked, g_ts_now_tracked, g_clock, g_t_now, g_t_first_read, g_ret_tracked)
+__CPROVER_ensures(g_reads_tracked == 1) /*@ C03 "every active thread's queue is read exactly once per pass" */
+__CPROVER_ensures(g_options.grace_us != 0 ==> (g_now_reads == 1 && g_ts_now_tracked == (uint64_t)(g_now_ns - g_options.grace_us * 1000))) /*@ C05 "the pass limit is the current time minus the configured grace period (same unit: a microsecond grace period is subtracted as microseconds), the same for every queue of the pass" */
+__CPROVER_ensures(g_options.grace_us == 0 ==> g_ts_now_tracked == UINT64_MAX) /*@ C05 "a zero grace period disables the timestamp check" */
+__CPROVER_ensures(g_now_reads == 1 ==> g_t_now < g_t_first_read) /*@ C05 "the limit is taken once, before the first queue is read" */
+''')],
+    harness='  BW* s; BW_populate_all(s);',
+    dropped=['union access to the bounded/unbounded queue', 'asserts (NDEBUG)', 'std::chrono types: unit conversion encoded in the lowering rules (listed in the prelude)'],
+    trusted=['context cache abstracted to {tracked, representative}', '_read_and_decode_frontend_queue by contract (units BW.read_decode[*])', 'std::chrono subtraction of microseconds from nanoseconds converts to nanoseconds'],
+    min_obligations=30)
+UNITS.append(populate_all)
